@@ -3,6 +3,7 @@ import PV.Generated.Score
 import PV.Model.SCC
 import PV.Model.Grouping
 import PV.Model.TED
+import PV.Model.Gate
 /-!
 Line-protocol driver: runs the executable models on the cases the harness also ran on the
 implementation.  Core-only imports (links as a native executable).
@@ -120,6 +121,34 @@ def runTed (t : Array String) : String :=
   let (sn, sd) := PV.TED.similarity 1000 d n1 n2
   s!"{d} {sn} {sd} {t1.size} {t2.size}"
 
+def sevOf (s : String) : PV.Gate.Sev :=
+  if s == "c" then .critical else if s == "w" then .warning else .info
+
+def intList (s : String) : List Int := if s == "" then [] else (s.splitOn ",").map tokI
+
+/-- `gate <select: 5 chars 0/1 for complexity,deadcode,clones,deps,mockdata | -> maxCx changed allowDead skipClones allowCirc maxCycles
+          <cx: E | cfgMax:c1,c2,…> <dead: E | gate:s1,s2,…> <clones: E|n> <cycles: E|n> <mock: E|n>` → 1 (exit 0) / 0 -/
+def runGate (t : Array String) : String :=
+  if t.size < 12 then "bad-op" else
+  let all : List PV.Gate.Analysis := [.complexity, .deadcode, .clones, .deps, .mockdata]
+  let sel : List PV.Gate.Analysis :=
+    if t[0]! == "-" then [] else (all.zip t[0]!.toList).filterMap fun (a, c) => if c == '1' then some a else none
+  let f : PV.Gate.Flags := { select := sel, maxComplexity := tokI t[1]!, maxComplexityChanged := tokB t[2]!, allowDead := tokB t[3]!,
+                             skipClones := tokB t[4]!, allowCirc := tokB t[5]!, maxCycles := tokI t[6]! }
+  let optN (s : String) : Option Nat := if s == "E" then none else some (tokI s).toNat
+  let cx : Option (List Int × Int) :=
+    if t[7]! == "E" then none else
+      match t[7]!.splitOn ":" with
+      | [m, cs] => some (intList cs, tokI m)
+      | _ => none
+  let dead : Option (List PV.Gate.Sev × PV.Gate.Sev) :=
+    if t[8]! == "E" then none else
+      match t[8]!.splitOn ":" with
+      | [g, ss] => some ((if ss == "" then [] else (ss.splitOn ",").map sevOf), sevOf g)
+      | _ => none
+  let r : PV.Gate.Results := { cx := cx, dead := dead, clones := optN t[9]!, cycles := optN t[10]!, mock := optN t[11]! }
+  if PV.Gate.exitZero f r then "1" else "0"
+
 def step (line : String) : String :=
   let parts := (line.splitOn " ").filter (· ≠ "")
   match parts with
@@ -131,6 +160,7 @@ def step (line : String) : String :=
     | "scc" => runScc t
     | "group" => runGroup t
     | "ted" => runTed t
+    | "gate" => runGate t
     | _ => "bad-op"
 
 partial def loop (h : IO.FS.Stream) (out : IO.FS.Stream) : IO Unit := do
